@@ -45,6 +45,7 @@ type mon struct {
 	recs     map[string]*trec
 	pending  map[string]string // model: id -> uid
 	reported map[string]string // last reported timers state: id -> uid
+	repState []byte            // the same, as the JSON a persisting host would have written
 	n        int
 	scenario interface{}
 	bad      bool
@@ -118,6 +119,7 @@ func (m *mon) process(msg interface{}) *sio.Result {
 			return nil
 		}
 		m.reported = p
+		m.repState, _ = json.Marshal(ch.State)
 	}
 	// hand the result to a consumer goroutine that serialises it, as Stdio does
 	select {
@@ -545,30 +547,77 @@ func restart(cfg fw.Config, rec *fw.Rec, i int) {
 	cancel()
 	close(m.consumer)
 	<-m.done
-	m2, cancel2 := newMon(rec, desc)
-	if m2 == nil {
-		return
+	persisted := map[string]string{}
+	for id, uid := range oldPending {
+		persisted[id] = uid
+	}
+	// a third of the scenarios restart twice in a row, the second time from what the first
+	// restarted crew reported
+	boots := 1
+	if i%3 == 1 {
+		boots = 2
+	}
+	var m2 *mon
+	var cancel2 context.CancelFunc
+	for boot := 1; boot <= boots; boot++ {
+		m2, cancel2 = newMon(rec, desc)
+		if m2 == nil {
+			return
+		}
+		m2.recs = oldRecs
+		m2.pending = oldPending
+		var err error
+		if rec.Guard("C17:sio:boot", desc, func() { err = m2.c.SetMachine(m2.ctx, sio.TimersMachine, nil, stored) }) {
+			cancel2()
+			return
+		}
+		if err != nil {
+			m2.violation("restart-fails", "timers state cannot be restored: "+err.Error())
+			cancel2()
+			return
+		}
+		rec.Eval(1)
+		// No firing completes before the harness (playing the crew loop) receives it, so
+		// right after the restart the pending set - in the live machine and as reported with
+		// the next result - is exactly the persisted one.
+		live, lerr := pendingFrom(m2.c.Machines[sio.TimersMachine].State)
+		if lerr != nil || fw.Canon(live) != fw.Canon(persisted) {
+			m2.violation("pending-after-restart-differs:live", fmt.Sprintf("restart %d: the persisted timers were %v, the restarted timers machine holds %v (%v)", boot, persisted, live, lerr))
+			cancel2()
+			return
+		}
+		m2.reported = map[string]string{}
+		for id, uid := range persisted {
+			m2.reported[id] = uid
+		}
+		m2.repState = nil
+		if m2.process(map[string]interface{}{"to": "nobody-flush"}) == nil {
+			cancel2()
+			return
+		}
+		if fw.Canon(m2.reported) != fw.Canon(persisted) {
+			m2.violation("pending-after-restart-differs:reported", fmt.Sprintf("restart %d: the persisted timers were %v, the first result after the restart reports %v as pending", boot, persisted, m2.reported))
+			cancel2()
+			return
+		}
+		rec.Bucket("pending_set_compared_right_after_restart")
+		if boot < boots {
+			// the host persists what was reported (if anything was) and crashes again
+			if m2.repState != nil {
+				stored = &core.State{}
+				json.Unmarshal(m2.repState, stored)
+				rec.Bucket("second_restart_from_state_reported_after_first")
+			}
+			cancel2()
+			close(m2.consumer)
+			<-m2.done
+		}
 	}
 	defer func() {
 		cancel2()
 		close(m2.consumer)
 		<-m2.done
 	}()
-	m2.recs = oldRecs
-	persisted := map[string]string{}
-	for id, uid := range oldPending {
-		persisted[id] = uid
-	}
-	m2.pending = oldPending
-	var err error
-	if rec.Guard("C17:sio:boot", desc, func() { err = m2.c.SetMachine(m2.ctx, sio.TimersMachine, nil, stored) }) {
-		return
-	}
-	if err != nil {
-		m2.violation("restart-fails", "timers state cannot be restored: "+err.Error())
-		return
-	}
-	rec.Eval(1)
 	// in half of the scenarios one resumed timer is cancelled: the others must be unaffected
 	if i%2 == 0 && len(persisted) >= 2 {
 		for id := range persisted {
@@ -616,8 +665,8 @@ func restart(cfg fw.Config, rec *fw.Rec, i int) {
 
 func Run(cfg fw.Config, rec *fw.Rec) {
 	log.SetOutput(io.Discard)
-	rec.Rule = "sio timers through a real Crew whose input channel the harness owns (the harness plays the crew loop; results are serialised by a consumer goroutine as Stdio does): scenarios of 4-18 steps over ids {x,y}: make (2-16 ms, or 10 s), cancel, receive for a while, stop receiving so that due timers block inside the emitter and then cancel / re-create the blocked id, quiesce; per timer: fired at most once, not before clock-before-request + delay, not after an acknowledged cancel that preceded its due time; at quiescent points the reported timers state (after a flush message) and the live machine state must equal accepted - fired - cancelled ('accepted' = reported pending right after the request); restart: timers persisted as JSON resume on a new crew, fire exactly once there and never on the old crew; under -race; non-trivial = scenario in which a timer fired; distinct by scenario"
-	rec.Required = []string{"fired", "accepted", "cancelled", "quiescent_points_compared", "phases_with_blocked_firing", "make_while_a_firing_is_blocked", "restart_scenarios", "timers_resumed_after_restart", "resumed_timer_cancelled_after_restart"}
+	rec.Rule = "sio timers through a real Crew whose input channel the harness owns (the harness plays the crew loop; results are serialised by a consumer goroutine as Stdio does): scenarios of 4-18 steps over ids {x,y}: make (2-16 ms, or 10 s), cancel, receive for a while, stop receiving so that due timers block inside the emitter and then cancel / re-create the blocked id, quiesce; per timer: fired at most once, not before clock-before-request + delay, not after an acknowledged cancel that preceded its due time; at quiescent points the reported timers state (after a flush message) and the live machine state must equal accepted - fired - cancelled ('accepted' = reported pending right after the request); restart: timers persisted as JSON resume on a new crew (in a third of the scenarios the new crew is restarted again from what it reported), the pending set held and reported right after each restart equals the persisted one, the timers fire exactly once on the last crew and never on an earlier one; under -race; non-trivial = scenario in which a timer fired; distinct by scenario"
+	rec.Required = []string{"fired", "accepted", "cancelled", "quiescent_points_compared", "phases_with_blocked_firing", "make_while_a_firing_is_blocked", "restart_scenarios", "timers_resumed_after_restart", "resumed_timer_cancelled_after_restart", "pending_set_compared_right_after_restart", "second_restart_from_state_reported_after_first"}
 	rec.Assume = []string{"a cancel acknowledged after the timer's due time overlaps its firing (the goroutine may already be blocked in the emitter): either outcome accepted", "requests the timers machine does not accept (duplicate pending id; requests after a failed cancel) are counted, not judged", "bounded progress: 30 s"}
 	n := cfg.Pick(150, 5000)
 	fw.Parallel(6, n, func(w, i int) { scenario(cfg, rec, i) })
